@@ -1011,6 +1011,62 @@ def r5b_tokens_by_interpretation(rep, src):
     rep.analysed['paths'] += n
 
 
+def r11_tokenizer_end_to_end(rep, src, tier):
+    """the tokenizer interpreted (sa.heap: the real BufferingIterator, its look-ahead and the regexes through CPython's engine) on every
+    list of up to two (thorough: three) lines over the line classes of the format -- field, field without value, continuation, empty,
+    whitespace-only, comment, a line that is none of these -- in the three input modes (every line terminated; the last line
+    unterminated; NO line terminated, the mode in which the tokenizer supplies the line ends): it returns, and the texts of the tokens
+    concatenate to the lines (each followed by a line end in the third mode)."""
+    import itertools
+    from .. import heap as H
+    mod = src.mod(TK)
+    f = src.func(TK + ':tokenize_deb822_file')
+    rep.saw_func(f)
+    KINDS = ['A: b', 'Cc:', ' more', '', '  ', '# note', 'not a field']
+    lists = [list(t_) for n_ in range(0, 3) for t_ in itertools.product(KINDS, repeat=n_)]
+    if tier == 'thorough':
+        lists += [list(t_) for t_ in itertools.product(KINDS, repeat=3)]
+    else:
+        lists += [['A: b', ' more', 'Cc:'], ['# note', 'A: b', ''], ['A: b', '', 'Cc:'], ['  ', '  ', 'A: b'], ['not a field', 'A: b', ' more'], ['A: b', 'Cc:', 'A: b', 'Cc:']]
+    n, bad = 0, None
+    for body in lists:
+        for mode in ('every line terminated', 'the last line unterminated', 'no line terminated'):
+            if mode == 'the last line unterminated' and not body:
+                continue
+            if mode == 'no line terminated' and len(body) < 2:
+                continue
+            if mode == 'every line terminated':
+                lines = [l_ + '\n' for l_ in body]
+            elif mode == 'the last line unterminated':
+                lines = [l_ + '\n' for l_ in body[:-1]] + [body[-1]]
+                if body[-1] == '':
+                    continue          # (an empty string is not a line)
+            else:
+                lines = list(body)
+                if '' in body[:1]:
+                    continue          # (the mode is recognised by a first line that is text without a line end)
+            want = ''.join(lines) if mode != 'no line terminated' else ''.join(l_ + '\n' for l_ in lines)
+            heap = H.Heap(mod, extra_modules=[src.mod('_deb822_repro._util'), src.mod('_util')],
+                          hooks={'sys.intern': lambda it, a, k: a[0], '_strI': lambda it, a, k: a[0], '_CaseInsensitiveString': lambda it, a, k: a[0]})
+            heap.native_regex = True
+            it = H.Interp(heap)
+            n += 1
+            try:
+                toks = it.seq(it.call(H.Closure(f.node, {}, None, None), [heap.new_list(list(lines))]))
+                texts = [heap.objs[t_.name].get('_text') for t_ in toks]
+                got = ''.join(texts) if all(isinstance(x_, str) for x_ in texts) else texts
+            except H.Raised as x:
+                got = 'raises %s (line %d)' % (x.exc, x.lineno)
+            if got != want and bad is None:
+                bad = 'the lines %r (%s): the tokenizer %s; the token texts must concatenate to %r' % (lines, mode, got if isinstance(got, str) and got.startswith('raises') else 'gives %r' % (got,), want)
+    rep.analysed['paths'] += n
+    what = 'token texts concatenate to the input lines (interpreted line lists, three input modes)'
+    if bad:
+        rep.fail('C01.R11', f.site, what, bad, where=f.where)
+    else:
+        rep.ok('C01.R11', f.site, what, '%d line lists' % n)
+
+
 def _concat_of_all_tokens(fnode):
     """True / reason string / None (unrecognised) for "some return value is ''.join(<t.text for every t in self.iter_tokens()>)" """
     lists = {}
@@ -1309,6 +1365,8 @@ def check(src, rep, tier):
     # the stages of the parse pipeline are built once (at import time) by functions that return a nested generator function: such a
     # stage is a function of its input stream only
     from . import common
+    rep.need('C01.R11', 1)
+    rep.guard('C01.R11', r11_tokenizer_end_to_end, src, tier)
     rep.need('C01.R10', 1)
     rep.guard('C01.R10', common.check_closure_factories, src, 'C01.R10', ['_deb822_repro._util', PM, TK],
               'tokens that a parse left behind (it raised half-way, or its result was not read to the end) are emitted into the next document that is parsed')
